@@ -479,6 +479,19 @@ func inputs(thorough bool) []gen {
 			}
 		}
 	}
+	// a refused announce followed by an upgrade that tries to carry on (whatever version token
+	// it names - the one it offered, none at all, the server's): never a session
+	for _, v := range []string{"v9.9.9", "v1.0.0", "", "\x00absent", "v2.0.1", "v2", "2.0.0"} {
+		for _, tok := range []string{"socketace/", "socketace", "socketace/" + v, "socketace/v2.0.0", "socketace/ ", "/", ""} {
+			a := "X-SOCKETACE / HTTP/1.1\r\n"
+			if v != "\x00absent" {
+				a += "Accepts-Protocol-Version: " + v + "\r\n"
+			}
+			a += "User-Agent: x\r\n\r\n"
+			u := "GET / HTTP/1.1\r\nConnection: upgrade\r\nUpgrade: " + tok + "\r\n\r\n"
+			add("server", a+u, "refused-announce-then-upgrade")
+		}
+	}
 	add("server", announce, "announce-only")
 	add("server", announce+upgrade, "canonical")
 	add("server", "X-SOCKETACE / HTTP/1.1\r\nAccepts-Protocol-Version: v1.0.0, v2.0.0\r\n\r\n"+upgrade, "canonical-list")
